@@ -115,6 +115,13 @@ func lifeOracle(e *Env, m *Model) []Finding {
 	return out
 }
 
+func depth4(tier string) int {
+	if tier == "thorough" {
+		return 5
+	}
+	return 4
+}
+
 func lifeHistCfg(prop, tier string) *histCfg {
 	spec := lifeSpec()
 	m := NewModel(&spec)
@@ -185,6 +192,34 @@ func registerLife(prop, title string) {
 					c.MaxScopes = 2
 					c.Depth++
 					jobs = append(jobs, c.jobs()...)
+				}
+				// a scoped RESULT OBJECT one of whose fields is nil (always / on the first invocation only):
+				// requesting that output must not re-create the sibling outputs handed out before
+				for _, nilIdx := range []int{0, 1} {
+					for _, when := range []string{"*", "1"} {
+						spec := kit.Spec{Regs: []kit.Reg{
+							{ID: 0, Life: "scoped", ResObj: true, Outs: []kit.Out{{T: "D0"}, {T: "D1", Key: "k"}}},
+							{ID: 1, Life: "scoped", Outs: []kit.Out{{T: "D2"}}, Deps: []kit.Dep{{T: "D0"}}},
+							{ID: 2, Life: "scoped", In: true, Outs: []kit.Out{{T: "D3"}}, Deps: []kit.Dep{{T: "D1", Key: "k"}}},
+						}}
+						m := NewModel(&spec)
+						jobs = append(jobs, (&histCfg{Name: fmt.Sprintf("%s-hist/resobj-nil-field-%d-%s", prop, nilIdx, strings.Replace(when, "*", "always", 1)), Spec: spec,
+							Faults: map[string]string{"0:" + when: fmt.Sprintf("nil:%d", nilIdx)},
+							Probes: []Op{{Kind: "get", T: "D0"}, {Kind: "get", T: "D1", Key: "k"}, {Kind: "get", T: "D2"}, {Kind: "get", T: "D3"}}, MaxScopes: 2, Depth: depth4(tier), NoProvOps: true,
+							Final:  []Op{{Kind: "close", Scope: ""}, {Kind: "settle"}},
+							Oracle: func(e *Env, s *vsched.Sched, h []Op) []Finding {
+								// the nil output itself is unresolvable (whatever error godi chooses) and the statement does not
+								// say whether its constructor may be retried: only what was HANDED OUT is judged
+								var keep []Finding
+								for _, f := range filterClauses(prop, lifeOracle(e, m)) {
+									switch f.F["clause"] {
+									case "two-instances-in-scope", "shared-across-scopes", "panic", "thread-panic", "deadlock", "race", "build-failed":
+										keep = append(keep, f)
+									}
+								}
+								return keep
+							}}).jobs()...)
+					}
 				}
 			}
 			pb := 2
